@@ -457,8 +457,43 @@ def task_small_exhaustive(ctx: Ctx, cal: str, lo: int, hi: int) -> None:
                 ctx.case("years", {"cal": cal, "n": n, "k": k})
 
 
+def task_between_panel(ctx: Ctx, cal: str, years: list[int]) -> None:
+    """Every ordered pair among the month-edge dates (days 1, 2, 19-21, last-1, last of every month) of the given
+    years and the year after each: Period.between with each single date unit and with the default units."""
+    c = pyo.cal(cal)
+    from pyoda_time import LocalDate
+
+    for y0 in years:
+        days = []
+        for y in (y0, y0 + 1):
+            if not c.min_year <= y <= c.max_year:
+                continue
+            for m in range(1, c.get_months_in_year(y) + 1):
+                dim = c.get_days_in_month(y, m)
+                for d in sorted({1, 2, 19, 20, 21, dim - 1, dim}):
+                    if 1 <= d <= dim:
+                        try:
+                            days.append(LocalDate(y, m, d, c)._days_since_epoch)
+                        except (ValueError, OverflowError):
+                            pass
+        days = sorted(set(days))
+        stride = max(1, len(days) // 60)  # at most ~60 x len(days) pairs per year pair
+        for i, a in enumerate(days):
+            for b in days[i % stride :: stride]:
+                for units in (["months"], ["years"], ["weeks"], ["years", "months", "days"]):
+                    ctx.case("between_date", {"cal": cal, "a": a, "b": b, "units": units})
+                if ctx.should_abort():
+                    return
+
+
 def tasks(tier: str, seed: int) -> list[Task]:
     out = [Task("task_hyp", {"shard": i, "n": 1100 if tier == "quick" else 22000}, f"hyp-{i}") for i in range(16)]
+    for cid in pyo.cal_ids():
+        c = pyo.cal(cid)
+        ny = c.max_year - c.min_year
+        # a leap/non-leap mix: a seed-chosen year and the year(s) after it; thorough: 12 seed-chosen years
+        ys = sorted({c.min_year + sub_seed(seed, "c09p", cid, k) % ny for k in range(1 if tier == "quick" else 12)})
+        out.append(Task("task_between_panel", {"cal": cid, "years": ys}, f"between-panel-{cid}"))
     if tier == "thorough":
         for cid in ("Um Al Qura", "Badi", "Hebrew Civil", "Hebrew Scriptural"):
             c = pyo.cal(cid)
